@@ -427,7 +427,7 @@ impl C39 {
             outs.push(format!("reopen={}", fmt_packets(&reopened, None)));
             outs.push(format!("crash={}", if problems.is_empty() { "ok" } else { "bad" }));
             ex.out = outs.join(" ");
-            ex.nontrivial = crash_states > 10 && !published.is_empty();
+            ex.nontrivial = crash_states > 4 && !published.is_empty();
             ex.tags.push("kind=crash".into());
             ex.tags.push(format!("batch={b}"));
             ex.tags.push(format!("crash-points~{}", (crash_states / 50) * 50));
